@@ -8,6 +8,7 @@ import json, os, shutil, subprocess, sys, time
 V = "/verif"
 ids = [a.upper() for a in sys.argv[1:] if not a.startswith("--")]
 inplace = "--inplace" in sys.argv
+only = [a.split("=", 1)[1] for a in sys.argv[1:] if a.startswith("--only=")]   # --only=r3 : seed names containing "r3"
 tier = "thorough" if "--thorough" in sys.argv else "quick"
 root = os.path.join(V, "seeded")
 rows = []
@@ -21,6 +22,8 @@ for pid in sorted(os.listdir(root)):
         d = os.path.join(root, pid, name)
         patch = os.path.join(d, "patch.diff")
         if not os.path.exists(patch):
+            continue
+        if only and not any(o in name for o in only):
             continue
         t = time.time()
         env = dict(os.environ)
